@@ -216,11 +216,12 @@ static sqf::runtime::runtime::result execute_do(sqf::runtime::runtime& runtime, 
 
 
 #ifdef SQFVM_RUNTIME_VERIF
-        if (sqf::runtime::verif::get_hooks().on_instruction_before) { sqf::runtime::verif::get_hooks().on_instruction_before(runtime, **instruction); }
+        auto verif_instruction_keepalive = *instruction; // the executed instruction may replace the set it lives in
+        if (sqf::runtime::verif::get_hooks().on_instruction_before) { sqf::runtime::verif::get_hooks().on_instruction_before(runtime, *verif_instruction_keepalive); }
 #endif // SQFVM_RUNTIME_VERIF
         (*instruction)->execute(runtime);
 #ifdef SQFVM_RUNTIME_VERIF
-        if (sqf::runtime::verif::get_hooks().on_instruction_after) { sqf::runtime::verif::get_hooks().on_instruction_after(runtime, **instruction); }
+        if (sqf::runtime::verif::get_hooks().on_instruction_after) { sqf::runtime::verif::get_hooks().on_instruction_after(runtime, *verif_instruction_keepalive); }
 #endif // SQFVM_RUNTIME_VERIF
 
 
